@@ -31,9 +31,9 @@ func (c17) Assumptions() []string {
 
 func (c17) Batches(tier string, seed uint64) []core.Batch {
 	var b []core.Batch
-	b = append(b, spread("full", 4, tierN(tier, 150, 1500))...)
-	b = append(b, spread("prefix", 16, tierN(tier, 4, 40))...)
-	b = append(b, spread("malformed", 2, tierN(tier, 100, 1000))...)
+	b = append(b, spread("full", 4, tierN(tier, 800, 4000))...)
+	b = append(b, spread("prefix", 16, tierN(tier, 8, 60))...)
+	b = append(b, spread("malformed", 2, tierN(tier, 600, 3000))...)
 	return b
 }
 
